@@ -53,6 +53,34 @@ theorem rreserve_refused (env : Env) (v : Vec) (n : Nat) (hn : n > v.cap - v.len
   have : ¬ v.len + n ≤ env.capIn := by omega
   simp [hn, this]
 
+/-! ## "capacity overflow": a request for more elements than have a layout is refused by EVERY kind -/
+
+theorem fits_false {env : Env} {m c : Nat} (hm : env.maxCap = some m) (h : c > m) : env.fits c = false := by
+  simp [Env.fits, hm]; omega
+
+theorem reserve_overflow_refused (env : Env) (v : Vec) (n m : Nat) (hm : env.maxCap = some m) (hl : v.len ≤ v.cap)
+    (hc : v.cap ≤ m) (h : v.len + n > m) : reserve env v n = none := by
+  have hn : n > v.cap - v.len := by omega
+  have hf : env.fits (max (max (v.cap * 2) (v.len + n)) env.minCap) = false := fits_false hm (by omega)
+  have hf' : env.fits (max (v.cap * 2) (max (v.len + n) env.minCap)) = false := fits_false hm (by omega)
+  unfold reserve growAmortized
+  cases hk : env.kind <;> simp [hn, hf, hf']
+
+theorem reserveExact_overflow_refused (env : Env) (v : Vec) (n m : Nat) (hm : env.maxCap = some m) (hl : v.len ≤ v.cap)
+    (hc : v.cap ≤ m) (h : v.len + n > m) : reserveExact env v n = none := by
+  have hn : n > v.cap - v.len := by omega
+  have hf : env.fits (v.len + n) = false := fits_false hm h
+  unfold reserveExact
+  cases hk : env.kind <;> simp [hn, hf]
+
+theorem rreserve_overflow_refused (env : Env) (v : Vec) (n m : Nat) (hm : env.maxCap = some m) (hl : v.len ≤ v.cap)
+    (hc : v.cap ≤ m) (h : v.len + n > m) : rreserve env v n = none := by
+  have hn : n > v.cap - v.len := by omega
+  have hf : env.fits (max (max (v.cap * 2) (v.len + n)) env.minCap) = false := fits_false hm (by omega)
+  have hf' : env.fits (max (v.cap * 2) (max (v.len + n) env.minCap)) = false := fits_false hm (by omega)
+  unfold rreserve rgrowAmortized
+  simp [hn, hf, hf']
+
 /-! ## the operations on a refused reservation -/
 
 theorem push_refused (env : Env) (v : Vec) (id : Id) (h : reserveOne env v = none) :
